@@ -748,7 +748,10 @@ def gen_single (shard, nshards):
   asyncs = [("port_status", 1), ("port_status", 2), ("echo",), ("packet_in",),
             ("error",), ("barrier_wrong",), ("error_near", 0), ("error_near", 2),
             # (the same notification twice: a port that flaps)
-            ("port_status", 1, 0), ("port_status", 1, 0, "again")]
+            ("port_status", 1, 0), ("port_status", 1, 0, "again"),
+            # (the switch's own LOCAL port, which Open vSwitch reports on at
+            #  every connect, and the highest physical port number)
+            ("port_status", 0xfffe), ("port_status", 0xfeff, 2)]
   i = 0
   for a1, a2 in itertools.combinations(asyncs, 2):
     items = hs + [a1, a2]
@@ -787,7 +790,7 @@ def gen_multi (rng, n, maxlen):
         ops.append(["msg", i, rng.choice(["barrier_ok", "barrier_ok",
                                           "barrier_err", "barrier_wrong"])])
       elif r < 0.68:
-        ops.append(["msg", i, "port_status", rng.randrange(1, 4)])
+        ops.append(["msg", i, "port_status", rng.choice([1, 2, 3, 1, 2, 3, 0xfffe, 0xfeff, 0xff00])])
         if rng.random() < 0.5: ops[-1].append(rng.choice([0, 0, 1, 2]))
       elif r < 0.75:
         k = rng.choice(["echo", "packet_in", "error", "desc", "error_near"])
